@@ -274,14 +274,22 @@ pub fn judge_failing_sink(src: Fmt, detect: bool, to: Fmt, size: &'static str, v
         sc.file(&n, &data);
         argv.push(n);
     }
-    let limit = if sink == 1 { 0u64 } else if sink == 3 { u64::MAX } else { 10_000 };
+    let limit = if sink == 1 { 0u64 } else if sink >= 3 { u64::MAX } else { 10_000 };
     if sink == 2 && probe.out.len() as u64 <= limit {
         acc.count("skipped_output_fits_under_the_file_size_limit");
         acc.evals -= 1;
         return;
     }
-    let out = procmon::run(Run { bin: &procmon::release_bin(), argv, cwd: sc.path(), stdin, stdout: if sink == 0 { StdoutKind::DevFull } else if sink == 3 { StdoutKind::FullNonBlockingPipe } else { StdoutKind::FileLimited(limit) }, wall_secs: 60, cpu_secs: 30 });
-    let label = if sink == 0 { "dev_full" } else if sink == 3 { "full_nonblocking_pipe" } else { "limited_regular_file" };
+    let the_bin = procmon::release_bin();
+    let mk = |stdin: StdinKind| Run { bin: &the_bin, argv: argv.clone(), cwd: sc.path(), stdin, stdout: if sink == 0 { StdoutKind::DevFull } else if sink == 3 { StdoutKind::FullNonBlockingPipe } else if sink == 4 { StdoutKind::HungUpPty } else { StdoutKind::FileLimited(limit) }, wall_secs: 60, cpu_secs: 30 };
+    let mut out = procmon::run(mk(stdin.clone()));
+    if out.status == Status::Exit(0) && sink == 4 {
+        // a terminal counts as hung up only while nobody holds its master: confirm while no other child of the
+        // harness is between fork and exec (see procmon::run_exclusive)
+        acc.count("exit_0_observations_confirmed_under_exclusion");
+        out = procmon::run_exclusive(mk(stdin.clone()));
+    }
+    let label = if sink == 0 { "dev_full" } else if sink == 3 { "full_nonblocking_pipe" } else if sink == 4 { "hung_up_terminal" } else { "limited_regular_file" };
     acc.count(&format!("{label}_runs"));
     acc.count(&format!("{label}_{}{}_{}_{}", src.name(), if detect { "_detected" } else { "" }, size, if variant % 2 == 0 { "stdin" } else { "file" }));
     if matches!(out.status, Status::Timeout | Status::SpawnError(_)) {
@@ -290,7 +298,7 @@ pub fn judge_failing_sink(src: Fmt, detect: bool, to: Fmt, size: &'static str, v
     }
     let err = String::from_utf8_lossy(&out.stderr);
     if out.status != Status::Exit(1) || !err.starts_with("xt error") {
-        acc.violation(Violation { sig: format!("{} {}{}->{} {} {}: {}", if sink == 0 { "/dev/full" } else if sink == 3 { "full non-blocking pipe" } else { "regular file that cannot grow" }, src.name(), if detect { "(detected)" } else { "" }, to.name(), size, if variant % 2 == 0 { "stdin" } else { "file" }, out.status.show()), case: json!({"devfull_matrix": true, "sink": sink, "source": src.name(), "detect": detect, "to": to.name(), "size": size, "variant": variant}), observed: format!("status {}, stderr [{}], {} bytes reached the file", out.status.show(), preview(&out.stderr, 200), out.stdout.len()), expected: "exit 1 and a message beginning 'xt error'".into() });
+        acc.violation(Violation { sig: format!("{} {}{}->{} {} {}: {}", if sink == 0 { "/dev/full" } else if sink == 3 { "full non-blocking pipe" } else if sink == 4 { "terminal that hung up (EIO)" } else { "regular file that cannot grow" }, src.name(), if detect { "(detected)" } else { "" }, to.name(), size, if variant % 2 == 0 { "stdin" } else { "file" }, out.status.show()), case: json!({"devfull_matrix": true, "sink": sink, "source": src.name(), "detect": detect, "to": to.name(), "size": size, "variant": variant}), observed: format!("status {}, stderr [{}], {} bytes reached the file", out.status.show(), preview(&out.stderr, 200), out.stdout.len()), expected: "exit 1 and a message beginning 'xt error'".into() });
     } else {
         acc.count(&format!("{label}_status_1_with_message"));
         if sink != 0 && out.stdout.len() as u64 > limit {
@@ -561,6 +569,10 @@ pub fn run(ctx: &Ctx) -> i32 {
         judge_devfull_stdin(src, detect, to, size, variant, acc);
         judge_failing_sink(src, detect, to, size, variant, 1 + (variant as u64 + size.len() as u64) % 2, acc);
         judge_failing_sink(src, detect, to, size, variant, 3, acc);
+        if to != Fmt::Msgpack {
+            // (xt refuses MessagePack on a terminal before writing anything)
+            judge_failing_sink(src, detect, to, size, variant, 4, acc);
+        }
         judge_consumer_gone_env(src, detect, to, size, variant, if (variant + src as usize + to as usize) % 2 == 0 { procmon::SigEnv::PipeIgnored } else { procmon::SigEnv::PipeBlocked }, acc);
     });
     acc.merge(m_acc);
@@ -618,9 +630,9 @@ pub fn run(ctx: &Ctx) -> i32 {
             judge_late_small_input(to, k, first, &mut acc);
         }
     }
-    let rule = format!("{} closing-pipe runs: the consumer takes exactly k bytes for k in {:?} and closes while more than 1 MiB of output remains, x 4 targets x input layouts (one 3 MiB file, 3 MiB on stdin, ten 400 KiB files so that the failure is also met in the per-input flush), single-table and multi-document inputs, JSON input named explicitly for every case plus (quick) one rotating or (thorough) every other choice of source format JSON/YAML/MessagePack/TOML, named or detected; a matrix source x named/detected x target x small/40 KiB input in which the consumer is gone before stdin delivers anything (failure met in the final flush for small outputs) and the same matrix with stdout on /dev/full (stdin and file) and with stdout on a REGULAR FILE that may not grow (RLIMIT_FSIZE 0 or 10 000 bytes with SIGXFSZ ignored: write(2) fails with EFBIG, like a full file system) and on a full pipe in non-blocking mode (EAGAIN); the consumer-gone matrix once more with SIGPIPE inherited as ignored (xt must still die from it, silently) or blocked in the signal mask (it cannot terminate: a silent failure status, never a panic or status 0); /dev/full runs whose output is a long run of one-byte values and separators shifted by 0..5 (thorough: 0..63) bytes, so that the first failing write lands on every kind of token; stdout a connected stream SOCKET whose peer takes 0 / 1 / 4096 / 70 000 bytes and closes (4 targets, file and stdin); a zero-length file (one empty TOML table) on /dev/full; FIFO operands (source x named/detected x target) on /dev/full and with the consumer gone before the FIFO delivers; plus 16 runs with stdout on /dev/full (outputs below and above the 8 KiB buffer) and 15 runs in which the consumer leaves after the first input's output and a second, small input arrives only afterwards (failure met in the per-input flush); distinct non-trivial = distinct (target, k, layout) cases", cs.len(), KS);
+    let rule = format!("{} closing-pipe runs: the consumer takes exactly k bytes for k in {:?} and closes while more than 1 MiB of output remains, x 4 targets x input layouts (one 3 MiB file, 3 MiB on stdin, ten 400 KiB files so that the failure is also met in the per-input flush), single-table and multi-document inputs, JSON input named explicitly for every case plus (quick) one rotating or (thorough) every other choice of source format JSON/YAML/MessagePack/TOML, named or detected; a matrix source x named/detected x target x small/40 KiB input in which the consumer is gone before stdin delivers anything (failure met in the final flush for small outputs) and the same matrix with stdout on /dev/full (stdin and file) and with stdout on a REGULAR FILE that may not grow (RLIMIT_FSIZE 0 or 10 000 bytes with SIGXFSZ ignored: write(2) fails with EFBIG, like a full file system) on a full pipe in non-blocking mode (EAGAIN) and on a terminal that hung up (the slave of a pseudo-terminal whose master is closed: EIO); the consumer-gone matrix once more with SIGPIPE inherited as ignored (xt must still die from it, silently) or blocked in the signal mask (it cannot terminate: a silent failure status, never a panic or status 0); /dev/full runs whose output is a long run of one-byte values and separators shifted by 0..5 (thorough: 0..63) bytes, so that the first failing write lands on every kind of token; stdout a connected stream SOCKET whose peer takes 0 / 1 / 4096 / 70 000 bytes and closes (4 targets, file and stdin); a zero-length file (one empty TOML table) on /dev/full; FIFO operands (source x named/detected x target) on /dev/full and with the consumer gone before the FIFO delivers; plus 16 runs with stdout on /dev/full (outputs below and above the 8 KiB buffer) and 15 runs in which the consumer leaves after the first input's output and a second, small input arrives only afterwards (failure met in the per-input flush); distinct non-trivial = distinct (target, k, layout) cases", cs.len(), KS);
     ev::finish(
-        Finish { ctx, level: "fault_enumeration", rule, assumptions: vec!["the kernel's pipe semantics: a write to a pipe whose read end is closed fails with EPIPE".into(), "a run in which the consumer could not obtain k bytes is inconclusive, not a violation".into(), "an 'exit 0 although the consumer had left' observation is confirmed by one more run during which no other process is spawned (a concurrently spawned child briefly holds a copy of the read end)".into()], extra: serde_json::Map::new(), exhaustive: false, min_distinct: 40, must_reach: vec![("killed_by_sigpipe_silently".into(), 40), ("dev_full_runs".into(), 16), ("dev_full_status_1_with_message".into(), 100), ("limited_regular_file_status_1_with_message".into(), 60), ("full_nonblocking_pipe_status_1_with_message".into(), 60), ("consumer_gone_with_sigpipe_ignored".into(), 30), ("socket_killed_by_sigpipe_silently".into(), 24), ("sigpipe_blocked_silent_failure_status".into(), 30), ("consumer_gone_first_runs".into(), 100), ("dev_full_alignment_runs".into(), 50), ("dev_full_zero_length_file_runs".into(), 6), ("fifo_input_dev_full_runs".into(), 20), ("fifo_input_consumer_gone_runs".into(), 20), ("source_yaml_detected".into(), 3), ("source_msgpack".into(), 3), ("late_small_input_runs".into(), 15), ("layout_many_files".into(), 5), ("layout_stdin".into(), 5)] },
+        Finish { ctx, level: "fault_enumeration", rule, assumptions: vec!["the kernel's pipe semantics: a write to a pipe whose read end is closed fails with EPIPE".into(), "a run in which the consumer could not obtain k bytes is inconclusive, not a violation".into(), "an 'exit 0 although the consumer had left' observation is confirmed by one more run during which no other process is spawned (a concurrently spawned child briefly holds a copy of the read end)".into()], extra: serde_json::Map::new(), exhaustive: false, min_distinct: 40, must_reach: vec![("killed_by_sigpipe_silently".into(), 40), ("dev_full_runs".into(), 16), ("dev_full_status_1_with_message".into(), 100), ("limited_regular_file_status_1_with_message".into(), 60), ("full_nonblocking_pipe_status_1_with_message".into(), 60), ("hung_up_terminal_status_1_with_message".into(), 40), ("consumer_gone_with_sigpipe_ignored".into(), 30), ("socket_killed_by_sigpipe_silently".into(), 24), ("sigpipe_blocked_silent_failure_status".into(), 30), ("consumer_gone_first_runs".into(), 100), ("dev_full_alignment_runs".into(), 50), ("dev_full_zero_length_file_runs".into(), 6), ("fifo_input_dev_full_runs".into(), 20), ("fifo_input_consumer_gone_runs".into(), 20), ("source_yaml_detected".into(), 3), ("source_msgpack".into(), 3), ("late_small_input_runs".into(), 15), ("layout_many_files".into(), 5), ("layout_stdin".into(), 5)] },
         acc,
     )
 }
